@@ -68,6 +68,7 @@ fn main() {
                 "api" => api::gen(&mut w, thorough, seed),
                 "exec-clifprobe" => exec::gen_clifprobe(&mut w, thorough, seed),
                 "xadd" => xadd::gen(&mut w, thorough, seed),
+                "exec-anyprog-engines" => exec::gen_anyprog_engines(&mut w, thorough, seed),
                 "exec-long" => exec::gen_long(&mut w, thorough, seed),
                 _ => { eprintln!("unknown suite {suite}"); std::process::exit(2); }
             }
